@@ -4385,10 +4385,10 @@ class FlowIR(object):
 
                 weights.append(stage_weight)
 
-            # VV: adding floats is hard, let's assume that there're at most 2 decimals
-            int_weights = [int(e * 1000) for e in weights]
+            # VV: adding floats is hard, accept weights that are non-negative and add up to 1.0 within a tolerance
+            weights_are_proper = all(e >= 0.0 for e in weights) and abs(sum(weights) - 1.0) < 1e-6
 
-            if sum(int_weights) != 1000:
+            if not weights_are_proper:
                 fallbackWeight = int(1000 / num_stages) / 1000.0
 
                 flowirLogger.log(19, "Stage weights do not add to one: %s = %3.3lf\n" % (weights, sum(weights)))
